@@ -267,6 +267,18 @@ func (r *c36run) runSeq(sim *simrt.Sim) {
 	if r.crowd > 0 {
 		res.Probes[fmt.Sprintf("large-package-%d-files", r.crowd)]++
 	}
+	// The directory's own modification time belongs to the simulated clock too
+	// (the kernel stamps it with the real clock whenever an entry appears or
+	// disappears): whenever it has moved, it is re-stamped.
+	dirStamp := map[string]time.Time{}
+	restampDir := func(dir string) {
+		if fi, err := os.Lstat(dir); err == nil && !fi.ModTime().Equal(dirStamp[dir]) {
+			stamp(dir)
+			if fi, err := os.Lstat(dir); err == nil {
+				dirStamp[dir] = fi.ModTime()
+			}
+		}
+	}
 	// the other module (created at its first step)
 	var (
 		impB      *tool.Importer
@@ -291,6 +303,7 @@ func (r *c36run) runSeq(sim *simrt.Sim) {
 			impB = tool.NewImporter(modB, &env.XGo{Version: "v1.0.0-sim", Root: rootB}, token.NewFileSet())
 			os.WriteFile(filepath.Join(dirB, "a.go"), []byte("package pkg\n"), 0644)
 			stamp(filepath.Join(dirB, "a.go"))
+			restampDir(dirB)
 			prevProjB, _ = projectWith(dirB, relB)
 			prevHashB = impB.PkgHash("example.com/c36app/pkg", r.self)
 			res.Probes["second-module-with-class-extension"]++
@@ -312,6 +325,7 @@ func (r *c36run) runSeq(sim *simrt.Sim) {
 			did = "touch"
 			stamp(p)
 		}
+		restampDir(dirB)
 		proj, err := projectWith(dirB, relB)
 		if err != nil {
 			fail("harness", err.Error(), "project")
@@ -334,6 +348,7 @@ func (r *c36run) runSeq(sim *simrt.Sim) {
 		prevProjB, prevHashB = proj, h
 	}
 	defer func() { os.RemoveAll(root + "-app") }()
+	restampDir(pkgDir)
 	prevProj, _ := project(pkgDir)
 	prevHash := imp.PkgHash(pkgPath, r.self)
 	if prevHash == "" || strings.HasPrefix(prevHash, "?") {
@@ -573,6 +588,7 @@ func (r *c36run) runSeq(sim *simrt.Sim) {
 				if !fired {
 					res.Probes["concurrent-change-point-not-reached"]++
 				} else {
+					restampDir(pkgDir)
 					hq := imp.PkgHash(pkgPath, r.self)
 					r.judged++
 					if hd != prevHash && hd != hq {
@@ -581,6 +597,7 @@ func (r *c36run) runSeq(sim *simrt.Sim) {
 				}
 			}
 		}
+		restampDir(pkgDir)
 		proj, err := project(pkgDir)
 		if err != nil {
 			fail("harness", err.Error(), "project")
